@@ -429,6 +429,18 @@ class ConfigWalkContext:
 NOT_SET = object()
 
 
+def dictkey_component(key) -> str:
+    """Encodes a dictionary key as a single path component
+
+    The encoding is injective: "%" and "/" are percent-encoded, and the
+    strings that are not path components ("", "." and "..") are prefixed by
+    "%". A key can thus neither alias a nested position ("a/m" vs. "a" then
+    "m") nor lead outside of the job directory ("..", "/tmp").
+    """
+    s = str(key).replace("%", "%25").replace("/", "%2F")
+    return f"%{s}" if s in ("", ".", "..") else s
+
+
 class ConfigWalk:
     """Allows to perform an operation on all nested configurations"""
 
@@ -526,7 +538,7 @@ class ConfigWalk:
             result = {}
             for key, value in x.items():
                 assert isinstance(key, (str, float, int))
-                with self.map(key):
+                with self.map(dictkey_component(key)):
                     result[key] = self(value)
             return result
 
